@@ -126,6 +126,15 @@ type stAlias struct {
 	B T1 `argmapper:",typeOnly"`
 }
 
+// stEmb has exported EMBEDDED fields besides the marker: they are ordinary
+// exported fields (named after their type).
+type stEmb struct {
+	am.Struct
+	I0
+	A  T0
+	T1 `argmapper:",typeOnly,subtype=e"`
+}
+
 type staticCase struct {
 	fn      interface{}
 	in, out []xLabel
@@ -146,6 +155,8 @@ var staticCases = []staticCase{
 	{fn: func(stNested) {}, in: []xLabel{xl("", reflect.TypeOf(stNested{}), "")}, name: "nested-embedding-is-a-value"},
 	{fn: func(T0, stNested) stNested { return stNested{} }, in: []xLabel{xl("", types[0], ""), xl("", reflect.TypeOf(stNested{}), "")}, out: []xLabel{xl("", reflect.TypeOf(stNested{}), "")}, name: "nested-embedding-mixes-with-positional"},
 	{fn: func(stAlias) {}, in: []xLabel{xl("a", types[0], ""), xl("", types[1], "")}, name: "marker-through-alias"},
+	{fn: func(stEmb) {}, in: []xLabel{xl("i0", types[tI0], ""), xl("a", types[0], ""), xl("", types[1], "e")}, name: "exported-embedded-fields"},
+	{fn: func() *stEmb { return nil }, out: []xLabel{xl("i0", types[tI0], ""), xl("a", types[0], ""), xl("", types[1], "e")}, name: "exported-embedded-fields-ptr-result"},
 	{fn: func(T0, stAlias) {}, reject: true, name: "alias-marker+positional"},
 	{fn: func(stMid, T0) {}, reject: true, name: "marker+positional"},
 	{fn: func(T0, stMid) {}, reject: true, name: "positional+marker"},
@@ -294,8 +305,22 @@ func runC14(c *CaseCtx) (res CaseResult) {
 		}
 		res.obs("values_compared", int64(len(exp)))
 	}
-	cmp("input", f.Input().Values(), in)
-	cmp("output", f.Output().Values(), expOut)
+	for pass := 0; pass < 2; pass++ {
+		vi, vo := f.Input().Values(), f.Output().Values()
+		cmp("input", vi, in)
+		cmp("output", vo, expOut)
+		// Values() hands out copies: whatever the caller does to them, the
+		// next inspection reports the function's true values again
+		for _, vs := range [][]am.Value{vi, vo} {
+			for i := range vs {
+				vs[i].Name, vs[i].Subtype, vs[i].Type = "scribbled", "zz", errT
+			}
+			for i, j := 0, len(vs)-1; i < j; i, j = i+1, j-1 {
+				vs[i], vs[j] = vs[j], vs[i]
+			}
+		}
+	}
+	res.obs("reinspections_after_scribbling_over_returned_values", 1)
 	lookups := func(kind string, vs *am.ValueSet, ls []xLabel, form int) {
 		typeCount := map[reflect.Type]int{}
 		for _, l := range ls {
@@ -385,6 +410,11 @@ func runC14Static(c *CaseCtx, r *rand.Rand) (res CaseResult) {
 	if err != nil {
 		res.violate("C14", "accepted-shape-rejected", "NewFunc rejected "+sc.name+": "+err.Error(), det)
 		return res
+	}
+	for _, vs := range [][]am.Value{f.Input().Values(), f.Output().Values()} {
+		for i := range vs {
+			vs[i].Name, vs[i].Subtype = "scribbled", "zz"
+		}
 	}
 	gi, go_ := valuesToX(f.Input().Values()), valuesToX(f.Output().Values())
 	if !reflect.DeepEqual(gi, sc.in) && !(len(gi) == 0 && len(sc.in) == 0) {
